@@ -67,7 +67,7 @@ def eval_case(tree, tower, xl, Xl, y):
     except Exception as e:
         ck.add("build", oracle.exc_man(e), e)
         return ck.fails, R
-    if "SelfAdjoint" in TP.scalar_invalidated_annotations(A):
+    if "SelfAdjoint" in TP.scalar_invalidated_annotations(A) or TP.contaminated_by_scalar(tree):
         return "contaminated", R  # open finding F-C05-scalar (recorded under C05) makes .T/.H short-cuts wrong
     # left products
     for sub, x in (("lvec", xl), ("lmat", Xl)):
